@@ -154,13 +154,14 @@ def heap_groups(ctx, sc_dir):
         groups.append(g)
     return groups
 
-def run_heap(ctx, exe, groups):
+def run_heap(ctx, exe, groups, locale='C'):
     """runs the groups in parallel worker processes; -> list of (group index, line index or None, answer lines, died?)"""
     import subprocess, concurrent.futures
     nw = 12
     buckets = [[] for _ in range(nw)]
     for i, g in enumerate(groups): buckets[i % nw].append(i)
-    env = dict(os.environ, ASAN_OPTIONS='detect_leaks=0:abort_on_error=0:exitcode=99', UBSAN_OPTIONS='halt_on_error=1:exitcode=99')
+    env = {k: v for k, v in os.environ.items() if not k.startswith('LC_') and k != 'LANG'}
+    env.update(ASAN_OPTIONS='detect_leaks=0:abort_on_error=0:exitcode=99', UBSAN_OPTIONS='halt_on_error=1:exitcode=99', LC_ALL=locale)
     results = {}
     def work(idxs):
         todo = list(idxs)
@@ -189,24 +190,31 @@ def heap_search(check, ctx):
     exe = ctx.sc.path('c04heap')
     cbuild.link(ctx.sc, ctx.objs, [os.path.join(VERIF, 'harness', 'c04heap.c')], exe, ctx.cfl + ['-I' + os.path.join(REPO, 'src')] + WRAP)
     groups = heap_groups(ctx, ctx.sc.path('c04files'))
-    res = run_heap(ctx, exe, groups)
+    # the same single operations once more WITHOUT an error slot (ownership of nested error objects), and the operations that
+    # parse a compound once more in a non-C numeric locale (the parser saves / switches / restores LC_NUMERIC)
+    singles = [g for g in groups if len(g) == 1 and not g[0].startswith('err ')]
+    noslot = [['N:' + g[0]] for g in singles]
+    loc = [g for g in groups if g[0].split(' ')[0] in ('cp', 'cscp', 'ri')]
+    if ctx.tier != 'thorough': loc = loc[::3]
     viol = []; nops = 0; kinds = {}; nfail = 0
-    for i, g in enumerate(groups):
-        got, died = res.get(i, ([], 'not run'))
-        for l, a in zip(g, got):
-            nops += 1; kinds[l.split(' ')[0]] = kinds.get(l.split(' ')[0], 0) + 1
-            m = re.match(r'(-?\d+) d=(open|-?\d+) e=(\d)', a)
-            if not m:
-                viol.append(dict(key=' ; '.join(g) if len(g) > 1 else l, got=a, expected='an answer', what='heap harness: malformed answer')); continue
-            if m.group(3) == '1': nfail += 1
-            if m.group(2) not in ('open', '0'):
-                viol.append(dict(key=' ; '.join(g) if len(g) > 1 else l, got=a, expected='d=0: no block allocated on behalf of the finished call(s) is still held after release',
-                                 what='memory still held after the documented release (%s blocks), %s path' % (m.group(2), 'failure' if m.group(3) == '1' else 'success')))
-        if died is not None:
-            at = g[len(got)] if len(got) < len(g) else g[-1]
-            first = re.search(r'(ERROR: AddressSanitizer: [^\n]*|runtime error: [^\n]*|double free[^\n]*|SUMMARY: [^\n]*)', died)
-            viol.append(dict(key=' ; '.join(g[:len(got) + 1]) if len(g) > 1 else at, got=(first.group(1) if first else died[-300:]), expected='no undefined access',
-                             what='sanitizer abort / crash in the real library during a call history over the allocating API (at: %s)' % at))
-    return nops, viol, dict(heap_ops=nops, heap_groups=len(groups), heap_op_kinds=kinds, heap_failure_paths=nfail)
+    for tag, gs, locale in (('', groups + noslot, 'C'), ('  @LC_ALL=C.UTF-8', loc + [['N:' + g[0]] for g in loc[::4]], 'C.UTF-8')):
+        res = run_heap(ctx, exe, gs, locale)
+        for i, g in enumerate(gs):
+            got, died = res.get(i, ([], 'not run'))
+            for l, a in zip(g, got):
+                nops += 1; kinds[l.split(' ')[0]] = kinds.get(l.split(' ')[0], 0) + 1
+                m = re.match(r'(-?\d+) d=(open|-?\d+) e=(\d)', a)
+                if not m:
+                    viol.append(dict(key=(' ; '.join(g) if len(g) > 1 else l) + tag, got=a, expected='an answer', what='heap harness: malformed answer')); continue
+                if m.group(3) == '1': nfail += 1
+                if m.group(2) not in ('open', '0'):
+                    viol.append(dict(key=(' ; '.join(g) if len(g) > 1 else l) + tag, got=a, expected='d=0: no block allocated on behalf of the finished call(s) is still held after release',
+                                     what='memory still held after the documented release (%s blocks), %s path' % (m.group(2), 'failure' if (m.group(3) == '1' or a.startswith('0 ')) else 'success')))
+            if died is not None:
+                at = g[len(got)] if len(got) < len(g) else g[-1]
+                first = re.search(r'(ERROR: AddressSanitizer: [^\n]*|runtime error: [^\n]*|double free[^\n]*|SUMMARY: [^\n]*)', died)
+                viol.append(dict(key=(' ; '.join(g[:len(got) + 1]) if len(g) > 1 else at) + tag, got=(first.group(1) if first else died[-300:]), expected='no undefined access',
+                                 what='sanitizer abort / crash in the real library during a call history over the allocating API (at: %s)' % at))
+    return nops, viol, dict(heap_ops=nops, heap_groups=len(groups), heap_noslot_ops=len(noslot), heap_nonC_locale_groups=len(loc), heap_op_kinds=kinds, heap_failure_paths=nfail)
 
 CHECK = C04()
